@@ -255,6 +255,14 @@ def r6(ctx):
             ctx.check(not late, "record-after-last-update@%s" % name, "`%s` is stored into last_valid_request after its last update" % (body.local_name(L) or "_%d" % L), body.where(b.idx), bad_detail="`%s` is copied into last_valid_request and modified afterwards (%s): the remembered response is not the one transmitted" % (body.local_name(L) or "_%d" % L, ", ".join(body.where(x) for x in late[:3])))
     # every request-bearing non-READ arm records the request (seq + digest of THIS request), response or not
     cl = lambda x: mentions_call(x, r"OutstationSession::classify$")
+    ib_ = prog.abody("OutstationSession::process_request_from_idle")
+    for var in ("NewNonRead", "NewRead", "RepeatRead", "RepeatNonRead", "MalformedRequest"):
+        arms_ = arm_edges(ctx, ib_, g_is(cl, var))
+        if len(arms_) != 1:
+            raise AnchorError("process_request_from_idle: %s arm" % var)
+        reg_ = region_of(ib_, arms_[0])
+        vals_ = [variant_name(e) for b, si, st, e in ret_sites(ib_, ctx.sym(ib_)) if b.idx in reg_]
+        ctx.check(bool(vals_) and all(v == "Some" for v in vals_), "record:%s@process_request_from_idle:always" % var, "the %s arm always returns Some(LastValidRequest) (%s): a request with no response (the *_NO_RESPONSE function codes) is recorded too" % (var, vals_), ib_.where(arms_[0].edge[1]), bad_detail="the %s arm of process_request_from_idle can return %s: the request is executed but not recorded, its retransmission is executed again" % (var, vals_))
     for d in ("OutstationSession::process_request_from_idle", "OutstationSession::wait_for_unsolicited_confirm"):
         body = prog.abody(d)
         sym = ctx.sym(body)
@@ -285,6 +293,12 @@ def r7(ctx):
     engine.session_start_resets (last_valid_request is part of SessionState::reset)."""
     session_start_resets(ctx)
 
+def r8(ctx):
+    """A deferred READ that survives a later non-READ request is answered after the unsolicited confirm and overwrites
+    last_valid_request; the retransmission of that non-READ request is then executed again. Supersession is rule C14.R7 (shared)."""
+    import c14
+    c14.r7(ctx)
+
 RULES = [
     ("C05.R1", "T2-region", "RepeatNonRead arms reach no handler / callback", r1),
     ("C05.R2", "T2", "Repeat* only under seq AND digest equality with the stored request", r2),
@@ -293,4 +307,5 @@ RULES = [
     ("C05.R5", "T5/T8", "repeat_* rewrite only the header; unsolicited retry re-sends the same response", r5),
     ("C05.R6", "T8/T3", "what is remembered is the transmitted response, recorded for every executed request", r6),
     ("C05.R7", "T2", "the remembered request is dropped before a session's first await (a pre-empted session is dropped without clean-up)", r7),
+    ("C05.R8", "T2-region", "requests superseding a deferred READ clear it, so its later answer cannot displace the record of the last executed request (shared with C14.R7)", r8),
 ]
